@@ -64,6 +64,9 @@ fn type_text(kind: &str) -> &'static str {
     match kind {
         "prim" => "INTEGER",
         "refseq" => "RefSeq",
+        // references whose names begin with a tagging keyword
+        "refseq-kwI" => "IMPLICITRef",
+        "refseq-kwE" => "EXPLICITRef",
         "refchoice" => "RefChoice",
         "inchoice" => "CHOICE { x BOOLEAN, y NULL }",
         "inseq" => "SEQUENCE { x BOOLEAN }",
@@ -120,6 +123,10 @@ fn occ_text(o: &Occ, k: usize) -> String {
 
 pub fn text(c: &Case) -> String {
     let mut body = String::from("RefSeq ::= SEQUENCE { x BOOLEAN }\nRefChoice ::= CHOICE { x BOOLEAN, y NULL }\n");
+    if c.occ.iter().any(|o| o.kind.starts_with("refseq-kw")) {
+        // Ref is a different type: a tag keyword split off the name would go unnoticed otherwise
+        body += "Ref ::= INTEGER\nIMPLICITRef ::= SEQUENCE { x BOOLEAN }\nEXPLICITRef ::= SEQUENCE { x BOOLEAN }\n";
+    }
     for (k, o) in c.occ.iter().enumerate() {
         body += &occ_text(o, k);
         body += "\n";
@@ -168,7 +175,7 @@ fn base_enc(kind: &str, auto: bool) -> (Vec<u8>, bool) {
     let x = if auto { vec![0x80, 1, 0xff] } else { vec![1, 1, 0xff] };
     match kind {
         "prim" => (vec![2, 1, 5], false),
-        "refseq" | "inseq" => (tlv(0, true, 16, &x), false),
+        "refseq" | "inseq" | "refseq-kwI" | "refseq-kwE" => (tlv(0, true, 16, &x), false),
         "refchoice" | "inchoice" => (x, true),
         _ => (vec![5, 0], true),
     }
@@ -333,7 +340,7 @@ impl Prop for C03 {
         "C03"
     }
     fn rule(&self) -> String {
-        "(attribute level + wire level: for the subset number 5 (300 on type assignments) x every default, keyword, kind and path up to depth 2 (thorough: depth 3 and every class) and the automatic-tagging family, the bindings are compiled and run: rasn's DER codec must decode the reference encoding computed from X.680 31 / X.690 of a canonical value and re-encode it identically) complete product: module default {none,EXPLICIT,IMPLICIT,AUTOMATIC} × keyword {none,IMPLICIT,EXPLICIT} × class {context,APPLICATION,PRIVATE,UNIVERSAL} × number {0,5,300} × position {type assignment, SEQUENCE/SET component, CHOICE alternative, component of a nested anonymous SEQUENCE / CHOICE (depth 2 and 3), SEQUENCE OF / SET OF element (top-level and inside a component)} × tagged type {primitive, referenced SEQUENCE, referenced CHOICE, inline CHOICE, inline SEQUENCE, open type}, minus IMPLICIT on CHOICE/open type; plus the automatic-tagging predicate {4 defaults}×{SEQUENCE,SET,CHOICE}×{8 tagged subsets of 3 components}×{top-level,nested}; thorough adds every ordered pair of occurrences at different positions in one module (independence) and EXTENSIBILITY IMPLIED. Oracle: X.680 §31.2.7 / §25.3 / §29.2 reference on the #[rasn(tag(..))] / automatic_tags attributes. For CHOICE/open-typed *components* only (class, number) are compared (rasn wraps those itself). Non-trivial: compiled cleanly and the item/field that should carry the tag was found.".into()
+        "(attribute level + wire level: for the subset number 5 (300 on type assignments) x every default, keyword, kind and path up to depth 2 (thorough: depth 3 and every class) and the automatic-tagging family, the bindings are compiled and run: rasn's DER codec must decode the reference encoding computed from X.680 31 / X.690 of a canonical value and re-encode it identically) complete product: module default {none,EXPLICIT,IMPLICIT,AUTOMATIC} × keyword {none,IMPLICIT,EXPLICIT} × class {context,APPLICATION,PRIVATE,UNIVERSAL} × number {0,5,300} × position {type assignment, SEQUENCE/SET component, CHOICE alternative, component of a nested anonymous SEQUENCE / CHOICE (depth 2 and 3), SEQUENCE OF / SET OF element (top-level and inside a component)} × tagged type {primitive, referenced SEQUENCE, referenced CHOICE, inline CHOICE, inline SEQUENCE, open type; references named IMPLICITRef / EXPLICITRef next to a type Ref}, minus IMPLICIT on CHOICE/open type; plus the automatic-tagging predicate {4 defaults}×{SEQUENCE,SET,CHOICE}×{8 tagged subsets of 3 components}×{top-level,nested}; thorough adds every ordered pair of occurrences at different positions in one module (independence) and EXTENSIBILITY IMPLIED. Oracle: X.680 §31.2.7 / §25.3 / §29.2 reference on the #[rasn(tag(..))] / automatic_tags attributes. For CHOICE/open-typed *components* only (class, number) are compared (rasn wraps those itself). Non-trivial: compiled cleanly and the item/field that should carry the tag was found.".into()
     }
     fn selftest(&self) -> Result<u64, String> {
         if parse_tag("explicit(context,5)") != Some(Tag { explicit: true, class: "context".into(), num: 5 }) || parse_tag("application,300") != Some(Tag { explicit: false, class: "application".into(), num: 300 }) {
@@ -391,6 +398,14 @@ impl Prop for C03 {
                             occs.push(Occ { kw: kw.into(), class: class.into(), num, pos: pos.clone(), kind: kind.into() });
                         }
                     }
+                }
+            }
+        }
+        // referenced types whose names begin with IMPLICIT / EXPLICIT (the keyword must end at a word boundary)
+        for pos in ["assign", "seq", "choice", "seqof"] {
+            for kind in ["refseq-kwI", "refseq-kwE"] {
+                for kw in kws {
+                    occs.push(Occ { kw: kw.into(), class: "".into(), num: 5, pos: pos.into(), kind: kind.into() });
                 }
             }
         }
